@@ -12,13 +12,20 @@
            | E nt (name k nc col…)* nf (name k nc col…)* Plan    session: temporary tables / files by name
            | W name nc col… Plan(def) Plan(body)                 common table expression
            | N name                          a FROM name to be resolved: CTE over temporary table over file
+           | QS n Plan… Plan Where Sel       a query with n numbered sub-queries used inside its WHERE / select list
+                                             (each evaluated anew for every record, the record in scope: correlation)
+           | SO U|E|I all Plan Plan          UNION / EXCEPT / INTERSECT [ALL]
+           | JL kind Plan Plan JC            LATERAL: the right plan is evaluated for every left record
   kind    := C | I | L | R | F
   JC      := - | O Cond | U n (li ri)*          (li / ri: column index in the left / right operand)
   Where   := - | W Cond
   Sel     := * | S n i… | L n item…      item := i idx out|- | r view|- name out|- | v lit out|- | b Cond out|- | k Cond lit lit out|-
              (out = AS name; v = literal, b = a condition as a value, k = CASE WHEN Cond THEN lit ELSE lit END)
   Cond    := cmp op E E | and C C | or C C | not C | isnull neg E | btw neg E E E | in neg E n v… | truth E
-  E       := c side idx | l v | n view|- name        (field reference by name, resolved by the model)
+  E       := c side idx | l v | n view|- name | s k   (n: reference by name, resolved by the model - own header, then
+             the records of the enclosing queries; s: scalar sub-query number k)
+  Cond   += ex k | ins neg E k | anys op E k | alls op E k      (EXISTS / IN / ANY / ALL over sub-query k)
+  item   += s k out|- (scalar sub-query) | t view (view.*)
   A last token `#<hex>` (the SQL text that was run) is ignored.
   answer: `<width> <row>|<row>|…` (cells `Proto.showVal` of the raw value, joined by `,`), `<width> -` when
   there is no row, `ERR` when the recursion limit is exceeded, `EAMB` / `ENOF` when an evaluated field
@@ -42,6 +49,8 @@ inductive SelItem
   | idx (i : Nat) (out : Option String)
   | ref (view : Option String) (name : String) (out : Option String)
   | comp (it : Item) (out : Option String)      -- a computed item (literal, condition as value, CASE)
+  | scalar (s : Nat) (out : Option String)      -- a scalar sub-query
+  | viewStar (view : String)                    -- view.*
 
 inductive Sel
   | star
@@ -55,7 +64,9 @@ inductive Plan
   | tbl (k : Nat)
   | gen
   | join (k : JKind) (l r : Plan) (jc : JCond)
-  | query (src : Plan) (wh : Option CondE) (sel : Sel)
+  | query (subs : List Plan) (src : Plan) (wh : Option CondE) (sel : Sel)
+  | setop (op : SetOp) (all : Bool) (l r : Plan)
+  | lateral (k : JKind) (l r : Plan) (jc : JCond)
   | alias (a : String) (names : List String) (p : Plan)
   | session (temps files : List NamedTbl) (p : Plan)
   | withC (name : String) (cols : List String) (defn body : Plan)
@@ -88,6 +99,7 @@ def pExpr (vals : Array Profile) : P Expr
     let p ← vals[v]?
     pure (.lit p, ts)
   | "n" :: v :: name :: ts => some (.ref (if v = "-" then none else some v) name, ts)
+  | "s" :: k :: ts => k.toNat?.map (fun k => (.scalar k, ts))
   | _ => none
 
 def pOptName : P (Option String)
@@ -154,6 +166,30 @@ def pCond (vals : Array Profile) : Nat → P CondE
     | "truth" => do
       let (a, ts) ← pExpr vals ts
       pure (.truth a, ts)
+    | "ex" => do
+      let (k, ts) ← pNat ts
+      pure (.exists k, ts)
+    | "ins" => do
+      let (n, ts) ← pBool ts
+      let (a, ts) ← pExpr vals ts
+      let (k, ts) ← pNat ts
+      pure (.inSub n a k, ts)
+    | "anys" =>
+      match ts with
+      | op :: ts => do
+        let op ← parseCOp op
+        let (a, ts) ← pExpr vals ts
+        let (k, ts) ← pNat ts
+        pure (.anySub op a k, ts)
+      | [] => none
+    | "alls" =>
+      match ts with
+      | op :: ts => do
+        let op ← parseCOp op
+        let (a, ts) ← pExpr vals ts
+        let (k, ts) ← pNat ts
+        pure (.allSub op a k, ts)
+      | [] => none
     | _ => none
   | _, [] => none
 
@@ -188,6 +224,14 @@ def pSelItems (vals : Array Profile) (fuel : Nat) : Nat → P (List SelItem)
     let (o, ts) ← pOptName ts
     let (r, ts) ← pSelItems vals fuel n ts
     pure (.comp (.case c pa pb) o :: r, ts)
+  | n + 1, "s" :: k :: ts => do
+    let k ← k.toNat?
+    let (o, ts) ← pOptName ts
+    let (r, ts) ← pSelItems vals fuel n ts
+    pure (.scalar k o :: r, ts)
+  | n + 1, "t" :: v :: ts => do
+    let (r, ts) ← pSelItems vals fuel n ts
+    pure (.viewStar v :: r, ts)
   | _, _ => none
 
 def pairUp : List Nat → List (Nat × Nat)
@@ -243,7 +287,7 @@ def pPlan (vals : Array Profile) : Nat → P Plan
           let (is, ts) ← pSelItems vals f n ts
           pure (Sel.items is, ts)
         | _ => none)
-      pure (.query src wh sel, ts)
+      pure (.query [] src wh sel, ts)
     | "A" =>
       match ts with
       | a :: ts => do
@@ -271,6 +315,38 @@ def pPlan (vals : Array Profile) : Nat → P Plan
     | "N" =>
       match ts with
       | name :: ts => some (.named name, ts)
+      | [] => none
+    | "QS" => do
+      let (n, ts) ← pNat ts
+      let rec subs (k : Nat) (ts : List String) : Option (List Plan × List String) :=
+        match k with
+        | 0 => some ([], ts)
+        | k + 1 => do
+          let (p, ts) ← pPlan vals f ts
+          let (r, ts) ← subs k ts
+          pure (p :: r, ts)
+      let (sp, ts) ← subs n ts
+      let (q, ts) ← pPlan vals f ("Q" :: ts)
+      match q with
+      | .query _ src wh sel => pure (.query sp src wh sel, ts)
+      | _ => none
+    | "SO" =>
+      match ts with
+      | o :: a :: ts => do
+        let op ← (match o with | "U" => some SetOp.union | "E" => some SetOp.except | "I" => some SetOp.intersect | _ => none)
+        let all ← parseBool a
+        let (l, ts) ← pPlan vals f ts
+        let (r, ts) ← pPlan vals f ts
+        pure (.setop op all l r, ts)
+      | _ => none
+    | "JL" =>
+      match ts with
+      | k :: ts => do
+        let k ← pKind k
+        let (l, ts) ← pPlan vals f ts
+        let (r, ts) ← pPlan vals f ts
+        let (jc, ts) ← pJCond vals f ts
+        pure (.lateral k l r jc, ts)
       | [] => none
     | _ => none
   | _, [] => none
@@ -325,6 +401,7 @@ structure Env where
   ctes : List (String × (Hdr × List Row)) := []
   temps : List NamedTbl := []
   files : List NamedTbl := []
+  outer : List (Hdr × Row) := []     -- records of the enclosing queries, innermost first
 
 def anonHdr (n : Nat) : Hdr := List.replicate n { view := "", name := "", isJoin := false }
 
@@ -338,6 +415,12 @@ def usingCond : List (Nat × Nat) → Option CondE
 def errStr : ResErr → String
   | .ambiguous => "EAMB"
   | .notExist => "ENOF"
+  | .tooManyRecords => "ESUBR"
+  | .tooManyFields => "ESUBF"
+
+def strErr (s : String) : ResErr :=
+  if s = "EAMB" then .ambiguous else if s = "ESUBR" then .tooManyRecords else if s = "ESUBF" then .tooManyFields
+  else .notExist
 
 def bad : String := "bad-op"
 
@@ -349,7 +432,7 @@ def optE {α} (o : Option α) : Except String α :=
 /-- the first resolution error met when the condition is evaluated on the given rows (in the Go code any
     worker that hits it fails the whole operation) -/
 def firstErr (lw : Nat) (ce : CondE) (rows : List Row) : Option ResErr :=
-  rows.findSome? (fun r => match evalCondE lw r ce with | .error e => some e | .ok _ => none)
+  rows.findSome? (fun r => match evalCondE noSubs lw r ce with | .error e => some e | .ok _ => none)
 
 def lookupNamed (n : String) : List NamedTbl → Option NamedTbl
   | [] => none
@@ -364,69 +447,115 @@ def renameHdr (names : List String) (h : Hdr) : Except String Hdr :=
   else if names.length ≠ h.length then .error bad
   else .ok (List.zipWith (fun (f : HField) n => { f with name := n }) h names)
 
-def eval (env : Env) : Plan → Except String (Hdr × List Row)
+abbrev CellFn := Row → Except ResErr Profile
+
+/-- a select item after resolution: how its cell is obtained (none: unresolved, no record to evaluate it on),
+    the source column when it is a plain column, its label and view -/
+structure RItem where
+  fn : Option CellFn
+  col : Option Nat
+  name : String
+  view : String
+
+/-- the join of two evaluated sources (join.go dispatch + the USING / NATURAL merge of joinViews) -/
+def joinCore (env : Env) (kind : JKind) (lh : Hdr) (L : List Row) (rh : Hdr) (R : List Row) (jc : JCond) :
+    Except String (Hdr × List Row) := do
+  let lw := lh.length
+  let rw := rh.length
+  let ce : Option CondE := match jc with
+    | .none => none
+    | .on c => some (resolveCondEnv (lh ++ rh) env.outer c)
+    | .using pairs => usingCond pairs
+  -- references that fail to resolve raise their error where the nested loop evaluates them
+  match ce with
+  | some c =>
+    if kind != .cross && !condPure c then
+      match L.findSome? (fun l => firstErr lw c (R.map (fun r => l ++ r))) with
+      | some e => throw (errStr e)
+      | none => pure ()
+    else pure ()
+  | none => pure ()
+  let c : Cond := match ce with
+    | none => fun _ => .T
+    | some ce => if condPure ce then fun row => evalCond lw row ce
+                 else fun row => match evalCondE noSubs lw row ce with | .ok t => t | .error _ => .U
+  let rows := match kind with
+    | .cross => crossImpl (chunkN env.w L) R
+    | .inner => (match ce with
+      | none => crossImpl (chunkN env.w L) R
+      | some _ => innerImpl (chunkN env.w L) R c)
+    | .left => outerImpl .left lw rw (chunkN env.w L) R c
+    | .right => outerImpl .right rw lw (chunkN env.w R) L c
+    | .full => outerImpl .full lw rw (chunkN env.w L) R c
+  match jc with
+  | .using pairs =>
+    if pairs.isEmpty then pure (lh ++ rh, rows) else
+    if pairs.any (fun p => p.1 ≥ lw || p.2 ≥ rw) then throw bad else
+    let mp := pairs.map (fun p => match kind with
+      | .right => (lw + p.2, p.1)
+      | _ => (p.1, lw + p.2))
+    let out ← optE (usingImpl (lw + rw) mp (chunkN env.w rows))
+    pure (usingHeader (lw + rw) mp (lh ++ rh), out)
+  | _ => pure (lh ++ rh, rows)
+
+/-- `fuel` bounds the depth of the plan (sub-queries are evaluated from inside closures) -/
+def eval : Nat → Env → Plan → Except String (Hdr × List Row)
+  | 0, _, _ => .error bad
+  | fuel + 1, env, plan =>
+  match plan with
   | .tbl k => do
     let (nc, rows) ← optE env.tables[k]?
     pure (anonHdr nc, rows)
   | .gen => pure env.gen
   | .join kind l r jc => do
-    let (lh, L) ← eval env l
-    let (rh, R) ← eval env r
-    let lw := lh.length
-    let rw := rh.length
-    let ce : Option CondE := match jc with
-      | .none => none
-      | .on c => some (resolveCond (lh ++ rh) c)
-      | .using pairs => usingCond pairs
-    -- references that fail to resolve raise their error where the nested loop evaluates them
-    match ce with
-    | some c =>
-      if kind != .cross && !condPure c then
-        match L.findSome? (fun l => firstErr lw c (R.map (fun r => l ++ r))) with
-        | some e => throw (errStr e)
-        | none => pure ()
-      else pure ()
-    | none => pure ()
-    let c : Cond := match ce with
-      | none => fun _ => .T
-      | some ce => if condPure ce then fun row => evalCond lw row ce
-                   else fun row => match evalCondE lw row ce with | .ok t => t | .error _ => .U
-    let rows := match kind with
-      | .cross => crossImpl (chunkN env.w L) R
-      | .inner => (match ce with
-        | none => crossImpl (chunkN env.w L) R
-        | some _ => innerImpl (chunkN env.w L) R c)
-      | .left => outerImpl .left lw rw (chunkN env.w L) R c
-      | .right => outerImpl .right rw lw (chunkN env.w R) L c
-      | .full => outerImpl .full lw rw (chunkN env.w L) R c
-    match jc with
-    | .using pairs =>
-      if pairs.isEmpty then pure (lh ++ rh, rows) else
-      if pairs.any (fun p => p.1 ≥ lw || p.2 ≥ rw) then throw bad else
-      let mp := pairs.map (fun p => match kind with
-        | .right => (lw + p.2, p.1)
-        | _ => (p.1, lw + p.2))
-      let out ← optE (usingImpl (lw + rw) mp (chunkN env.w rows))
-      pure (usingHeader (lw + rw) mp (lh ++ rh), out)
-    | _ => pure (lh ++ rh, rows)
-  | .query src wh sel => do
-    let (h, rows) ← eval env src
+    let (lh, L) ← eval fuel env l
+    let (rh, R) ← eval fuel env r
+    joinCore env kind lh L rh R jc
+  | .lateral kind l r jc => do
+    -- loadView, LATERAL: for every left record the right side is evaluated with the record in scope and joined
+    -- with the one-record view; the header is the one of the FIRST record's join (none when there is no record)
+    let (lh, L) ← eval fuel env l
+    let parts ← L.mapM (fun lrow => do
+      let (rh, R) ← eval fuel { env with outer := (lh, lrow) :: env.outer } r
+      joinCore env kind lh [lrow] rh R jc)
+    pure ((match parts with | [] => [] | p :: _ => p.1), (parts.map (fun p => p.2)).flatten)
+  | .setop op all l r => do
+    let (lh, A) ← eval fuel env l
+    let (rh, B) ← eval fuel env r
+    if lh.length ≠ rh.length then throw "ESETW" else
+    pure (fixHeader (lh.map (fun f => f.name)) lh, setOp (fun (r : Row) => r.map norm) op all A B)
+  | .query subs src wh sel => do
+    let (h, rows) ← eval fuel env src
     let w := h.length
+    -- sub-query k for the record at hand: evaluated with the record pushed on the stack of outer records
+    let subsFor : Row → SubEnv := fun row k =>
+      match subs[k]? with
+      | none => .error .notExist
+      | some p =>
+        match eval fuel { env with outer := (h, row) :: env.outer } p with
+        | .ok (hh, rr) => .ok (hh.length, rr)
+        | .error e => .error (strErr e)
     let rows ← (match wh with
       | none => pure rows
       | some ce =>
-        let ce := resolveCond h ce
+        let ce := resolveCondEnv h env.outer ce
         if condPure ce then pure (filterImpl (chunkN env.w rows) (fun row => evalCond 0 row ce))
-        else match firstErr 0 ce rows with
-          | some e => throw (errStr e)
-          | none => pure (filterImpl (chunkN env.w rows)
-              (fun row => match evalCondE 0 row ce with | .ok t => t | .error _ => .U)))
-    -- `*` is expanded into one field reference per header field (qualified by the view when there is one),
-    -- each resolved by name like a written reference; index-based plans (anonymous header) keep the identity
+        else do
+          -- a condition with open references / sub-queries: every record is evaluated once, the first error ends it
+          let ts ← rows.mapM (fun row => match evalCondE (subsFor row) 0 row ce with
+            | .ok t => Except.ok t
+            | .error e => Except.error (errStr e))
+          pure (((rows.zip ts).filter (fun (p : Row × Tern) => p.2 == Tern.T)).map (fun p => p.1)))
+    -- `*` / `view.*` are expanded into one field reference per header field (qualified by the view when there is
+    -- one), each resolved by name like a written reference; index-based plans (anonymous header) keep the identity
+    let refOf := fun (f : HField) => SelItem.ref (if f.view == "" then none else some f.view) f.name none
     let sel : Sel := match sel with
       | .star =>
         if h.any (fun f => f.name == "") then .star
-        else .items (h.map (fun f => SelItem.ref (if f.view == "" then none else some f.view) f.name none))
+        else .items (h.map refOf)
+      | .items its => .items (its.flatMap (fun (it : SelItem) => match it with
+          | .viewStar v => (h.filter (fun f => f.view == v)).map refOf     -- exact spelling of the view name
+          | x => [x]))
       | s => s
     match sel with
     | .star => pure (fixHeader (h.map (fun f => f.name)) h, rows)
@@ -439,7 +568,7 @@ def eval (env : Env) : Plan → Except String (Hdr × List Row)
       -- items are evaluated in order; the `AS` name of an item becomes a further name of its column for the
       -- items after it (`evalColumn` appends it to Header[idx].Aliases).  An item that does not resolve is
       -- evaluated per record: an error only if there is a record.
-      let step := fun (st : Except String (Hdr × List (Option Item × String × String))) (it : SelItem) => do
+      let step := fun (st : Except String (Hdr × List RItem)) (it : SelItem) => do
         let (h, acc) ← st
         let addAlias := fun (h : Hdr) (i : Nat) (out : Option String) =>
           match out with
@@ -447,42 +576,52 @@ def eval (env : Env) : Plan → Except String (Hdr × List Row)
           | some o => h.zipIdx.map (fun (fi : HField × Nat) =>
               if fi.2 = i && !(eqFold fi.1.name o) && !(fi.1.aliases.any (fun a => eqFold a o))
               then { fi.1 with aliases := fi.1.aliases ++ [o] } else fi.1)
+        let colFn : Nat → CellFn := fun i r => .ok ((r[i]?).getD nullP)
         match it with
         | .idx i out =>
           (match h[i]? with
-          | some f => pure (addAlias h i out, acc ++ [(some (Item.col i), out.getD f.name, f.view)])
+          | some f => pure (addAlias h i out, acc ++ [{ fn := some (colFn i), col := some i, name := out.getD f.name, view := f.view }])
           | none => throw bad)
         | .ref v n out =>
           (match fieldIndex h v n with
-          | .ok i => pure (addAlias h i out, acc ++ [(some (Item.col i), out.getD n, ((h[i]?).map (fun f => f.view)).getD "")])
-          | .error e => if rows.isEmpty then pure (h, acc ++ [(none, out.getD n, "")]) else throw (errStr e))
+          | .ok i => pure (addAlias h i out, acc ++ [{ fn := some (colFn i), col := some i, name := out.getD n, view := ((h[i]?).map (fun f => f.view)).getD "" }])
+          | .error .notExist =>
+            -- not a column of this query: the records of the enclosing queries
+            (match resolveOuter v n env.outer with
+            | .ok p => pure (h, acc ++ [{ fn := some (fun _ => .ok p), col := none, name := out.getD n, view := "" }])
+            | .error e => if rows.isEmpty then pure (h, acc ++ [{ fn := none, col := none, name := out.getD n, view := "" }]) else throw (errStr e))
+          | .error e => if rows.isEmpty then pure (h, acc ++ [{ fn := none, col := none, name := out.getD n, view := "" }]) else throw (errStr e))
         | .comp item out =>
           -- calculated for every record; only index references and literals inside (checked)
           let item := (match item with
-            | .cond c => Item.cond (resolveCond h c)
-            | .case c a b => Item.case (resolveCond h c) a b
+            | .cond c => Item.cond (resolveCondEnv h env.outer c)
+            | .case c a b => Item.case (resolveCondEnv h env.outer c) a b
             | x => x)
           let pure? := (match item with
             | .cond c => condPure c
             | .case c _ _ => condPure c
             | _ => true)
-          if !pure? then throw bad else pure (h, acc ++ [(some item, out.getD "", "")])
+          if !pure? then throw bad
+          else pure (h, acc ++ [{ fn := some (fun r => .ok (evalItem r item)), col := none, name := out.getD "", view := "" }])
+        | .scalar k out =>
+          pure (h, acc ++ [{ fn := some (fun r => match subsFor r k with | .ok res => scalarOf res | .error e => .error e), col := none, name := out.getD "", view := "" }])
+        | .viewStar _ => throw bad
       let (_, resolved) ← items.foldl step (pure (h, []))
-      let its := resolved.filterMap (fun (x : Option Item × String × String) => x.1)
-      let allCols := its.all (fun it => match it with | .col _ => true | _ => false)
-      let out ← (if its.length ≠ resolved.length then pure []
-        else if allCols then optE (projectImpl (chunkN env.w rows) (its.filterMap (fun it => match it with | .col i => some i | _ => none)))
-        else pure (selectRows its rows))
-      pure (resolved.map (fun (x : Option Item × String × String) => { view := x.2.2, name := x.2.1, isJoin := false }), out)
+      let fns := resolved.filterMap (fun (x : RItem) => x.fn)
+      let colIdx := resolved.filterMap (fun (x : RItem) => x.col)
+      let out ← (if fns.length ≠ resolved.length then pure []
+        else if colIdx.length = resolved.length then optE (projectImpl (chunkN env.w rows) colIdx)
+        else rows.mapM (fun r => fns.mapM (fun f => match f r with | .ok p => Except.ok p | .error e => Except.error (errStr e))))
+      pure (resolved.map (fun (x : RItem) => { view := x.view, name := x.name, isJoin := false }), out)
   | .alias a names p => do
-    let (h, rows) ← eval env p
+    let (h, rows) ← eval fuel env p
     let h ← renameHdr names h
     pure (aliasHeader a h, rows)
-  | .session temps files p => eval { env with temps := temps, files := files } p
+  | .session temps files p => eval fuel { env with temps := temps, files := files } p
   | .withC name cols defn body => do
-    let (h, rows) ← eval env defn
+    let (h, rows) ← eval fuel env defn
     let h ← renameHdr cols h
-    eval { env with ctes := (name, (aliasHeader name h, rows)) :: env.ctes } body
+    eval fuel { env with ctes := (name, (aliasHeader name h, rows)) :: env.ctes } body
   | .named n =>
     match tableKind none (env.ctes.map (fun c => c.1)) (env.temps.map (fun t => t.1)) n with
     | .cte => optE (lookupCte n env.ctes)
@@ -498,6 +637,8 @@ def eval (env : Env) : Plan → Except String (Hdr × List Row)
         let h ← renameHdr cols (anonHdr nc)
         pure (aliasHeader n h, rows)
       | none => throw "ENOTBL"
+
+def evalFuel : Nat := 100000
 
 def showRow (r : Row) : String := String.intercalate "," (r.map (fun p => showVal p.raw))
 
@@ -524,7 +665,7 @@ def c03 (cmd : String) (args : List String) : String :=
       let (plan, ts) ← pPlan vals (ts.length + 1) ts
       if !ts.isEmpty then none else
       let env : Env := { tables := tables.toArray, gen := ([], []), w := w }
-      some (showE (eval env plan))).getD bad
+      some (showE (eval evalFuel env plan))).getD bad
   | "rec" | "recu" =>
     (do
       let (w, ts) ← pNat args
@@ -541,13 +682,13 @@ def c03 (cmd : String) (args : List String) : String :=
         else (pPlan vals (ts.length + 1) ts).map (fun (pt : Plan × List String) => (some pt.1, pt.2)))
       if !ts.isEmpty then none else
       let env : Env := { tables := tables.toArray, gen := ([], []), w := w }
-      let (ah, a) ← (eval env anchor).toOption
+      let (ah, a) ← (eval evalFuel env anchor).toOption
       let aw := anonHdr ah.length
       -- the step plan must be well-formed (checked once on the anchor)
-      let (sh, _) ← (eval { env with gen := (aw, a) } stepP).toOption
+      let (sh, _) ← (eval evalFuel { env with gen := (aw, a) } stepP).toOption
       if sh.length ≠ ah.length then none else
       let step : List Row → List Row := fun g =>
-        match eval { env with gen := (aw, g) } stepP with
+        match eval evalFuel { env with gen := (aw, g) } stepP with
         | .ok (_, rows) => rows
         | .error _ => []
       -- `recu`: UNION (distinct), records compared by their comparison keys (C04's normalisation)
@@ -557,7 +698,7 @@ def c03 (cmd : String) (args : List String) : String :=
       | some out =>
         (match finalP with
         | none => some (showRes (aw, out))
-        | some fp => some (showE (eval { env with gen := (aw, out) } fp)))
+        | some fp => some (showE (eval evalFuel { env with gen := (aw, out) } fp)))
       | none => some "ERR").getD bad
   | _ => bad
 
